@@ -86,12 +86,12 @@ func genWild(t *rapid.T) Case {
 // operand universe for the targeted templates: names bound by wild.Prelude, literals,
 // and values obtained through every provenance
 var operands = []string{
-	"i", "j", "f", "s", "b", "n", "l", "m", "tl", "ts", "tm", "im", "pl", "il", "ll", "p", "ps", "st", "ch", "uc", "fn", "f0", "f5", "fv", "mod", "undefinedName",
+	"i", "j", "f", "s", "b", "n", "l", "m", "tl", "ts", "tm", "im", "pl", "il", "ll", "p", "ps", "st", "si", "ch", "uc", "fn", "f0", "f5", "fv", "mod", "undefinedName",
 	"0", "1", "-1", "2", "9223372036854775807", "-9223372036854775808", "72057594037927936", "4611686018427387904", "1.5", "-0.0", "1e308", `""`, `"a"`, `"abc"`, "true", "false", "nil",
 	"[]", "[1, 2]", "[nil]", "{}", `{"a": 1}`, "[]int64{1, 2}", "[]string{}", "map[string]int64{}", "make([]int64, 0, 4)", "make([][]int64, 1)", "make(map[int64]string)", "make(chan int64)", "make(chan int64, 1)",
 	"new(int64)", "new([]int64)", "new(struct{A int64})", "make(struct{A int64, B []string})", "make(*int64)", "make([]*int64, 2)", "make(map[string]*int64)",
 	"l[0]", "l[2]", "pl[0]", "il[0]", "ll[0]", "m.a", "m.b", `m["zz"]`, "st.A", "st.C", "*p", "&i", "&l", "id(i)", "id(l)", "id(nil)", "id(p)", "id(ch)", "id(fn)", "[p][0]", "[ch][0]", "[fn][0]", "[mod][0]", "(true ? tl : nil)", "(nil ?? tm)",
-	"func() { return 1 }", "func(a) { return a }", "func(a...) { return a }", "mod.g", "mod.x", "keys", "typeOf", "boom", "cb", "each", "arr", "takesInt", "takesStrs", "import(\"strings\")", "import(\"strings\").Repeat",
+	"func() { return 1 }", "func(a) { return a }", "func(a...) { return a }", "mod.g", "mod.x", "keys", "typeOf", "boom", "boomv", "cb", "each", "arr", "takesInt", "takesStrs", "import(\"strings\")", "import(\"strings\").Repeat",
 }
 
 var templates = []string{
@@ -106,6 +106,9 @@ var templates = []string{
 	"throw %s", "%s++", "%s--", "%s += %s", "%s -= %s", "%s *= %s", "%s /= %s", "%s &= %s", "%s |= %s", "%s[%s]++", "%s.A += %s", "*%s += %s",
 	`"s" * %s`, `%s * "s"`, "toInt(%s)", "toString(%s)", "toIntSlice(%s)", "toRune(%s)", "toChar(%s)", "keys(%s)", "typeOf(%s)", "cb(%s)", "each(%s, %s)", "arr(%s)", "takesInt(%s, %s)", "takesStrs(%s...)",
 	"func(a, b) { return a }(%s...)", "func(a...) { return a }(%s...)", "func(a) { *a = %s }(%s)", "func() { defer %s(%s); return 1 }()", "func() { go %s(%s); return 1 }()",
+	"boomv(%s...)", "go boomv(%s...)", "defer boomv(%s...)", "go boomv(%s, %s...)", "go takesStrs(%s...)", "go %s(%s, %s...)",
+	"si.A = %s\n{si: 1}", "si.A = %s\nm[si] = 1", "si.B = %s\ndelete(m, si)", "si.A = %s\nm[si]", "si.A = %s\nmap[interface]int64{si: 1}", "si.A = %s\n(si in [si])", "si.A = %s\nsi == si", "si.A = %s\nswitch si { case si: 1 }",
+	"x = [%s]\n{x[0]: 1}", "x = {\"k\": %s}\nm[x.k] = 2", "x = id(%s)\nm[x]", "x = %s\ndelete(m, x)\ndelete(im, x)\ndelete(tm, x)",
 	"try { %s(%s) } catch e { e.Error() }", "try { throw %s } catch e { e = %s }", "module m2 { a = %s }; m2.a(%s)", "x = %s; x.y = %s", "x = %s; x[0] = %s; x",
 }
 
